@@ -5,6 +5,7 @@
 From Coq Require Import List NArith ZArith Bool.
 From YV Require Import Base.Wire Model.Binary Gen.Tables Model.Json Model.Schema Model.SchemaCases Model.PlanCases Proofs.PlanProofs.
 From YV Require Import Model.CppLayout Proofs.CppLayoutProofs.
+From YV Require Import Model.CodedCpp Model.CodedPy Model.PyTyped Model.NumpyLayout Proofs.NumpyLayoutProofs.
 Import ListNotations.
 Open Scope N_scope.
 
@@ -75,3 +76,18 @@ Example C14_trait_examples :
   ts true (TRec [TPrim PInt8; TPrim PFloat32]) = false /\
   ts true (TRec [TFixVec 0 (TPrim PUint8); TPrim PUint8]) = false.
 Proof. vm_compute. repeat split. Qed.
+
+(* The Python array fast path follows the plan too: when NDArraySerializerBase hands value.data to write_bytes_directly
+   (element serializer trivially serializable, element dtype without padding: Model.PyTyped.py_fast), the raw bytes of a
+   C-contiguous array are the concatenation of the element encodings - numpy's aligned structured dtypes modelled in
+   Model/NumpyLayout.v. *)
+Theorem C14_python_array_fast_path_sound : forall e xs, py_fast e = true -> forallb (has_type e) xs = true ->
+  concat (map (nimg e) xs) = map Some (concat (map (enc_py e) xs)).
+Proof. exact py_fast_path_sound. Qed.
+Print Assumptions C14_python_array_fast_path_sound.
+
+(* false without the padding test (the code before /repo commit cea71d1) *)
+Theorem C14_python_fast_path_unguarded_refuted :
+  exists e x, py_ts e = true /\ has_type e x = true /\ nimg e x <> map Some (enc_py e x).
+Proof. exact py_fast_path_unguarded_refuted. Qed.
+Print Assumptions C14_python_fast_path_unguarded_refuted.
